@@ -172,6 +172,139 @@ def h_beliefmdp(sk, numeric, bsupport, nseed, bmode='sym'):
                     [S.truth(tuple(nag.states) == tuple(sl))] + [S.eq(x * Z, tau[n]) if not _is0(Z) else S.eq(x, 0) for x, n in zip(nag.probs, sl)]))
 
 
+def h_state_estimator_U():
+    """PartiallyObservableMDP.state_estimator for a belief of UNBOUNDED support over a model with UNBOUNDED next-state supports (both loops cut, nested):
+    the accumulated weight of an arbitrary state J is  U(J) = sum_{i: b_i != 0} sum_{j: next_i_j = J} O(a, J, o) * b_i * T(s_i, a, next_i_j);
+    the result is empty when the total is 0 and otherwise maps J to U(J)/total exactly when U(J) > 0.   `total` is what the builtin sum returns on the
+    accumulator's values (trusted builtin; only total >= each non-negative entry is used)."""
+    import z3, os, collections
+    from symrun.absx import Atom, AbsMap, AbsValues, rsumN, fresh_atom, Opaque
+    from symrun.cut import cut, CutSpec
+    from symrun.patch import patched
+    from symrun.driver import ROOT
+    I, Rl = z3.IntSort(), z3.RealSort()
+    bkey, bval = z3.Function('bkey', I, I), z3.Function('bval', I, Rl)
+    nkey, nval, nn = z3.Function('nkey', I, I, I), z3.Function('nval', I, I, Rl), z3.Function('nn', I, I)        # indexed by (state, position)
+    Op = z3.Function('Oprob', I, Rl)                                                                           # observation_dist(a, ns).prob(o) for the fixed a, o
+    nb = z3.Int('nb')
+    S.cur().inputs['nb'] = nb
+    S.assume(S.SymBool(nb >= 0))
+    J = fresh_atom('J')
+    a, o = fresh_atom('a'), fresh_atom('o')
+    inner = rsumN('IS', 2, lambda j, i, k: z3.If(nkey(bkey(i), j) == k, Op(k) * bval(i) * nval(bkey(i), j), z3.RealVal(0)))
+    outer = rsumN('OS', 1, lambda i, k: z3.If(bval(i) == 0, z3.RealVal(0), inner(nn(bkey(i)), i, k)))
+    TOT = S.real('total')
+
+    class NDist:
+        def __init__(self, s): self.s = s
+        def items(self): return Opaque('next-state items', owner=self.s)
+
+    class ODist:
+        def __init__(self, ns): self.ns = ns
+        def prob(self, x):
+            if x is not o:
+                raise S.Unsupported('unexpected observation queried')
+            return S.SymReal(Op(self.ns.e))
+
+    class Pomdp(pp.PartiallyObservableMDP):
+        discount_rate = 1.0
+        def next_state_dist(self, s, act):
+            if act is not a:
+                raise S.Unsupported('unexpected action')
+            return NDist(s)
+        def observation_dist(self, act, ns):
+            if act is not a:
+                raise S.Unsupported('unexpected action')
+            return ODist(ns)
+        def initial_state_dist(self): raise S.Unsupported('not used')
+        def actions(self, s): raise S.Unsupported('not used')
+        def reward(self, s, a_, ns): raise S.Unsupported('not used')
+        def is_absorbing(self, s): raise S.Unsupported('not used')
+
+    class B:
+        def items(self): return Opaque('belief items', owner='belief')
+    g0, g1 = {}, {}
+    ph = {'outer': 'head', 'inner': 'head'}
+
+    def fresh_map(L):
+        return AbsMap(name='acc', focus=J)
+
+    def inv0(L):
+        m = L['ns_dist']
+        if 'k' not in g0:
+            return S.eq(m[J], 0)
+        kk = g0['k'] + (1 if ph['outer'] == 'back' else 0)
+        return S.eq(m[J], S.SymReal(outer(kk, J.e)))
+
+    def havoc0(L):
+        k = z3.Int('ghost_i')
+        S.cur().inputs['ghost_i'] = k
+        S.assume(S.SymBool(k >= 0))
+        g0['k'] = k
+        return dict(ns_dist=fresh_map(L), s=None, s_prob=None, ns=None, ns_prob=None, o_prob=None)
+
+    def element0(L, it):
+        S.assume(S.SymBool(g0['k'] < nb))
+        return (Atom(bkey(g0['k'])), S.SymReal(bval(g0['k'])))
+
+    def inv1(L):
+        m = L['ns_dist']
+        if 'k' not in g1:
+            return S.eq(m[J], S.SymReal(outer(g0['k'], J.e)))                     # entry: nothing of this belief state added yet (IS(0,..) = 0)
+        kk = g1['k'] + (1 if ph['inner'] == 'back' else 0)
+        return S.eq(m[J], S.SymReal(outer(g0['k'], J.e) + inner(kk, g0['k'], J.e)))
+
+    def havoc1(L):
+        k = z3.Int('ghost_j')
+        S.cur().inputs['ghost_j'] = k
+        S.assume(S.SymBool(k >= 0))
+        g1['k'] = k
+        return dict(ns_dist=fresh_map(L), ns=None, ns_prob=None, o_prob=None)
+
+    def element1(L, it):
+        S.assume(S.SymBool(g1['k'] < nn(bkey(g0['k']))))
+        ph['inner'] = 'back'
+        return (Atom(nkey(bkey(g0['k']), g1['k'])), S.SymReal(nval(bkey(g0['k']), g1['k'])))
+
+    def exhausted1(L):
+        ph['outer'] = 'back'                                                       # after the inner loop the outer body reaches its back edge
+        return S.SymBool(g1['k'] == nn(bkey(g0['k'])))
+    spec0 = CutSpec(inv=inv0, havoc=havoc0, element=element0, exhausted=lambda L: S.SymBool(g0['k'] == nb),
+                    iterable_ok=lambda L, v: isinstance(v, Opaque) and v.owner == 'belief')
+    spec1 = CutSpec(inv=inv1, havoc=havoc1, element=element1, exhausted=exhausted1,
+                    iterable_ok=lambda L, v: isinstance(v, Opaque) and v.owner is L['s'])
+    fcut, text, info = cut(pp.PartiallyObservableMDP.state_estimator, {0: spec0, 1: spec1}, dump_dir=os.path.join(ROOT, 'evidence', 'extracted'))
+    _cont = {'seen': False}
+    real_back = fcut.__cut_runtime__.back_edge
+
+    def back_edge(k, L):                      # the `continue` of a zero-probability belief state jumps to the OUTER back edge without entering the inner loop
+        if k == 0:
+            ph['outer'] = 'back'
+        return real_back(k, L)
+    fcut.__cut_runtime__.back_edge = back_edge
+
+    def symsum(x, *rest):
+        if isinstance(x, AbsValues):
+            # trusted builtin: the sum of all accumulated weights; each weight is a sum of products of probabilities, hence >= 0 and <= the total
+            S.assume(S.And([S.ge(TOT, x.m[J]), S.ge(x.m[J], 0)]))
+            return TOT
+        return sum(x, *rest)
+
+    class DD:
+        def __init__(self, d): self.d = d
+    with patched((pp, dict(defaultdict=lambda f: AbsMap(default=0, focus=J), sum=symsum, DictDistribution=DD))):
+        res = fcut(Pomdp(), B(), a, o)
+    UJ = S.SymReal(outer(nb, J.e))
+    d = res.d
+    if bool(S.SymBool(TOT.e == 0)):
+        S.check('U:state_estimator:empty-when-the-observation-is-impossible', S.truth(len(d) == 0))
+    elif bool(S.SymBool(UJ.e > 0)):
+        S.check('U:state_estimator:posterior-of-an-arbitrary-state-is-its-accumulated-weight-over-the-total', S.And(
+            [S.truth(len(d) == 1 and next(iter(d)) is J)] + ([S.eq(d[J] * TOT, UJ)] if len(d) == 1 else [])))
+    else:
+        S.check('U:state_estimator:states-of-zero-weight-are-not-in-the-support', S.truth(len(d) == 0))
+
+
 def rt_random(seed, n):
     rnd = _random.Random(seed)
     out = []
@@ -210,6 +343,7 @@ def tasks(tier, seed):
                 if sk.name == 'p212':
                     T.append(Task('bayes/all-symbolic/' + nm, h_bayes, (sk, 'sym', sup, 0, 'sym'), tier='B', vc_timeout_ms=20000,
                                   note='every probability symbolic'))
+    T.append(Task('U/state_estimator/abstract-belief-and-model', h_state_estimator_U, (), tier='U', note='both loops cut; unbounded supports', vc_timeout_ms=30000))
     T.append(Task('rt/random', rt_random, (seed, 20 if tier == 'quick' else 200), tier='R', kind='rt'))
     return T
 
@@ -222,3 +356,17 @@ MANIFEST_ENTRY = dict(
     note='Bounded skeleton family (tier B); floats as reals.',
 )
 END_MANIFEST_ENTRY = True
+
+
+SENTINELS = globals().get('SENTINELS', []) + [
+    Sentinel('U:state_estimator-overwrites-instead-of-accumulating', 'msdm.core.pomdp.pomdp', "                ns_dist[ns] += o_prob*s_prob*ns_prob", "                ns_dist[ns] = o_prob*s_prob*ns_prob",
+             ['U/state_estimator/abstract-belief-and-model']),
+    Sentinel('U:state_estimator-ignores-the-observation-likelihood', 'msdm.core.pomdp.pomdp', "                ns_dist[ns] += o_prob*s_prob*ns_prob", "                ns_dist[ns] += s_prob*ns_prob",
+             ['U/state_estimator/abstract-belief-and-model']),
+    Sentinel('U:state_estimator-returns-unnormalised-weights', 'msdm.core.pomdp.pomdp', "return DictDistribution({ns: p/tot for ns, p in ns_dist.items() if p > 0.0})",
+             "return DictDistribution({ns: p for ns, p in ns_dist.items() if p > 0.0})", ['U/state_estimator/abstract-belief-and-model']),
+    Sentinel('U:state_estimator-keeps-zero-weight-states', 'msdm.core.pomdp.pomdp', "return DictDistribution({ns: p/tot for ns, p in ns_dist.items() if p > 0.0})",
+             "return DictDistribution({ns: p/tot for ns, p in ns_dist.items()})", ['U/state_estimator/abstract-belief-and-model']),
+    Sentinel('U:state_estimator-skips-the-first-successor-of-every-state', 'msdm.core.pomdp.pomdp', "            for ns, ns_prob in self.next_state_dist(s, a).items():\n                o_prob = self.observation_dist(a, ns).prob(o)",
+             "            for ns, ns_prob in list(self.next_state_dist(s, a).items())[1:]:\n                o_prob = self.observation_dist(a, ns).prob(o)", ['U/state_estimator/abstract-belief-and-model']),
+]
